@@ -71,6 +71,10 @@ pub struct Opts {
     pub max_states: usize,
     /// explore only one schedule (first choice everywhere)
     pub single: bool,
+    /// > 0: instead of every schedule, this many seeded random schedules (the first two are
+    /// "always the first legal call" and "always the last legal call")
+    pub paths: usize,
+    pub seed: u64,
 }
 impl Default for Opts {
     fn default() -> Self {
@@ -80,6 +84,8 @@ impl Default for Opts {
             steps: true,
             max_states: 100000,
             single: false,
+            paths: 0,
+            seed: 1,
         }
     }
 }
@@ -96,6 +102,10 @@ pub struct EndInfo {
     pub faildel: BTreeSet<String>,
     pub succ_outputs: BTreeSet<String>,
     pub sig: String,
+    /// per successfully executed job: the engine's output of each direct upstream when it started
+    pub consumed: BTreeMap<String, BTreeMap<String, String>>,
+    /// started but not successful (failed, changed output, running at abort)
+    pub touched: BTreeSet<String>,
 }
 
 #[derive(Default, Clone, Debug)]
@@ -185,6 +195,24 @@ pub fn ctx_json(w: &World, cfg: &EvalCfg, opts: &Opts, extra: &Map<String, Value
     o.insert("abort".into(), json!(opts.abort));
     o.insert("misuse".into(), json!(opts.misuse));
     o.insert("single".into(), json!(opts.single));
+    o.insert("paths".into(), json!(opts.paths));
+    // the world's ground truth (see world.rs): what each job was last built from
+    o.insert("truth".into(), json!(true));
+    o.insert(
+        "built".into(),
+        Value::Object(
+            w.built
+                .iter()
+                .map(|(j, m)| {
+                    (
+                        j.clone(),
+                        Value::Object(m.iter().map(|(u, v)| (u.clone(), parse_value(v))).collect()),
+                    )
+                })
+                .collect(),
+        ),
+    );
+    o.insert("dirty".into(), json!(w.dirty.iter().collect::<Vec<_>>()));
     // defaults for the chain links; overwritten by extra
     o.insert("prev".into(), json!(0));
     o.insert("twin".into(), json!(0));
@@ -299,6 +327,8 @@ pub fn world_from_ctx(c: &Value) -> (World, EvalCfg, Opts) {
         steps: true,
         max_states: 100000,
         single: c["single"].as_bool().unwrap_or(false),
+        paths: c["paths"].as_u64().unwrap_or(0) as usize,
+        seed: 1,
     };
     (w, cfg, opts)
 }
@@ -367,6 +397,69 @@ pub fn explore_ctx(
     let mut stack: Vec<(Vec<Call>, usize)> = vec![(vec![], l0)];
     if run.is_finished() {
         handle_end(wr, &mut run, links, ctx_line, l0, &mut ends, &mut first_end, stats);
+    }
+    if opts.paths > 0 {
+        // seeded random schedules instead of all of them
+        stack.clear();
+        let mut seen_tr: std::collections::HashSet<(usize, String)> = std::collections::HashSet::new();
+        for pi in 0..opts.paths {
+            let mut h: u64 = opts.seed.wrapping_mul(0x9E3779B97F4A7C15) ^ (pi as u64).wrapping_mul(0xD1B54A32D192ED03);
+            for b in format!("{:?}{:?}", w, cfg).bytes() {
+                h = (h ^ b as u64).wrapping_mul(0x100000001B3);
+            }
+            let mut next = move || {
+                h ^= h >> 12;
+                h ^= h << 25;
+                h ^= h >> 27;
+                h.wrapping_mul(0x2545F4914F6CDD1D)
+            };
+            let mut run = replay(w, cfg, false, &[]);
+            let mut from_line = l0;
+            let mut guard = 0;
+            loop {
+                guard += 1;
+                let legal = run.legal_calls(opts.abort);
+                if legal.is_empty() || guard > 10000 {
+                    break;
+                }
+                let c = match pi {
+                    0 => legal[0].clone(),
+                    1 => legal[legal.len() - 1].clone(),
+                    _ => legal[(next() % legal.len() as u64) as usize].clone(),
+                };
+                let (cls, msg) = run.call(&c);
+                let mut st = run.state_json();
+                let key = st.to_string();
+                let (to_line, is_new) = match states.get(&key) {
+                    Some(l) => (*l, false),
+                    None => {
+                        st.as_object_mut().unwrap().insert("ctx".into(), json!(ctx_line));
+                        let l = wr.emit(&st);
+                        states.insert(key, l);
+                        stats.states += 1;
+                        (l, true)
+                    }
+                };
+                if seen_tr.insert((from_line, format!("{:?}", c))) {
+                    let mut tr = Map::new();
+                    tr.insert("t".into(), json!("tr"));
+                    tr.insert("ctx".into(), json!(ctx_line));
+                    tr.insert("from".into(), json!(from_line));
+                    tr.insert("to".into(), json!(to_line));
+                    tr.insert("call".into(), c.to_json());
+                    tr.insert("res".into(), json!(cls));
+                    tr.insert("msg".into(), json!(msg));
+                    tr.insert("mis".into(), json!(false));
+                    tr.insert("steps".into(), if opts.steps { run.steps_json() } else { json!([]) });
+                    wr.emit(&Value::Object(tr));
+                    stats.transitions += 1;
+                }
+                if is_new && run.is_finished() {
+                    handle_end(wr, &mut run, links, ctx_line, to_line, &mut ends, &mut first_end, stats);
+                }
+                from_line = to_line;
+            }
+        }
     }
     while let Some((path, from_line)) = stack.pop() {
         let here = replay(w, cfg, false, &path);
@@ -506,5 +599,23 @@ fn handle_end(
         faildel: b.faildel.clone(),
         succ_outputs,
         sig,
+        consumed: b
+            .succ
+            .iter()
+            .map(|j| {
+                let m: BTreeMap<String, String> = b
+                    .cons
+                    .get(j)
+                    .and_then(|c| c.as_object())
+                    .map(|o| {
+                        o.iter()
+                            .filter_map(|(u, r)| r.get("e").map(|e| (u.clone(), e.to_string())))
+                            .collect()
+                    })
+                    .unwrap_or_default();
+                (j.clone(), m)
+            })
+            .collect(),
+        touched: b.started.difference(&b.succ).cloned().collect(),
     });
 }
